@@ -5,6 +5,7 @@ import (
 	"bytes"
 	"context"
 	"fmt"
+	"io"
 	"os"
 	"sort"
 	"strings"
@@ -38,6 +39,57 @@ type Case struct {
 	VLen     int         `json:"vlen,omitempty"`
 	Files    [][3]uint64 `json:"files,omitempty"` // list: (start, end, partial?1:0)
 	Below    uint64      `json:"below,omitempty"`
+	// environment deviations: the object store fails the first FailWrites writes after consuming the body, and the first
+	// FailReads reads after delivering half of the object (the save and load paths retry)
+	FailWrites int `json:"fail_writes,omitempty"`
+	FailReads  int `json:"fail_reads,omitempty"`
+}
+
+// flakyStore injects transient object-store failures.
+type flakyStore struct {
+	dstore.Store
+	failWrites, failReads int32
+}
+
+func (f *flakyStore) WriteObject(ctx context.Context, name string, r io.Reader) error {
+	if atomic.AddInt32(&f.failWrites, -1) >= 0 {
+		io.Copy(io.Discard, r) // a real failure can come after the body was sent
+		return fmt.Errorf("injected: connection reset while writing %s", name)
+	}
+	return f.Store.WriteObject(ctx, name, r)
+}
+
+type halfReader struct {
+	io.ReadCloser
+	left int
+}
+
+func (h *halfReader) Read(p []byte) (int, error) {
+	if h.left <= 0 {
+		return 0, fmt.Errorf("injected: connection reset while reading")
+	}
+	if len(p) > h.left {
+		p = p[:h.left]
+	}
+	n, err := h.ReadCloser.Read(p)
+	h.left -= n
+	return n, err
+}
+
+func (f *flakyStore) OpenObject(ctx context.Context, name string) (io.ReadCloser, error) {
+	r, err := f.Store.OpenObject(ctx, name)
+	if err != nil {
+		return nil, err
+	}
+	if atomic.AddInt32(&f.failReads, -1) >= 0 {
+		size, _ := f.Store.ObjectAttributes(ctx, name)
+		half := 1
+		if size != nil {
+			half = int(size.Size / 2)
+		}
+		return &halfReader{ReadCloser: r, left: half}, nil
+	}
+	return r, nil
 }
 
 var combo = refmodel.Combo{Policy: "set", VT: "bytes"}
@@ -74,6 +126,9 @@ func evalContent(cs Case) (*core.Fail, bool) {
 	} else {
 		ds = storedrv.MemStore()
 	}
+	if cs.FailWrites > 0 || cs.FailReads > 0 {
+		ds = &flakyStore{Store: ds, failWrites: int32(cs.FailWrites), failReads: int32(cs.FailReads)}
+	}
 	cfg := storedrv.NewConfig(combo, 10, ds)
 	var ops []refmodel.Op
 	for _, e := range cs.Entries {
@@ -85,7 +140,7 @@ func evalContent(cs Case) (*core.Fail, bool) {
 		pre = append(pre, refmodel.Op{T: "d", K: p, O: 0})
 	}
 	desc := func() string {
-		return fmt.Sprintf("partial=%v entries=%q prefixes=%q zstd=%v", cs.Partial, cs.Entries, cs.Prefixes, cs.Zstd)
+		return fmt.Sprintf("partial=%v entries=%q prefixes=%q zstd=%v failed-writes=%d failed-reads=%d", cs.Partial, cs.Entries, cs.Prefixes, cs.Zstd, cs.FailWrites, cs.FailReads)
 	}
 	want := map[string][]byte{}
 	var wantSize uint64
@@ -314,6 +369,26 @@ func Run(ctx *core.Ctx) int {
 				counts["content"]++
 				if !emit(Case{Kind: "content", Partial: true, Entries: cp, Prefixes: pl, Zstd: zstd}) {
 					return false
+				}
+			}
+			// transient object-store failures on the way (<= 2 failed writes, <= 1 failed read): on the small contents
+			if len(cur) <= 1 {
+				for _, fw := range []int{0, 1, 2} {
+					for _, fr := range []int{0, 1} {
+						if fw+fr == 0 {
+							continue
+						}
+						for _, partial := range []bool{false, true} {
+							counts["content-with-store-failures"]++
+							var pl []string
+							if partial {
+								pl = []string{"a"}
+							}
+							if !emit(Case{Kind: "content", Partial: partial, Entries: cp, Prefixes: pl, Zstd: len(cur) == 1 && fw == 1, FailWrites: fw, FailReads: fr}) {
+								return false
+							}
+						}
+					}
 				}
 			}
 			if len(cur) == maxEntries {
